@@ -101,6 +101,8 @@ struct NetHooks {
   std::function<void(int node, std::function<bool()> ready, int64_t timeout_ms)> block;
   // called for each allocation; return true to fail it.
   std::function<bool(int type, size_t size)> fail_alloc;
+  // a blocking epoll_wait that has waited: true = a signal handler ran meanwhile, the call returns -1/EINTR
+  std::function<bool()> epoll_eintr;
   // schedule preemption point (C13)
   std::function<void(const char *what)> yield;
   // exit() reached
